@@ -14,7 +14,7 @@ class Scenario:
 def build(contents, store_alg="SHA-256", size_class=0):
     """size_class: 0 -> 1 byte, 1 -> one buffer, 2 -> multi-buffer contents"""
     sizes = [(1, 3), (4096, 8192), (20000, 3 * 8192 + 7)][size_class]
-    A = contents.add(b"A" * sizes[0])
+    A = contents.add(b"A" * sizes[0] + (b"\0" * 12288 if size_class == 2 else b""))   # multi-buffer: zero-padded tail
     B = contents.add(bytes((i * 31 + 7) % 256 for i in range(sizes[1])))
     M1 = contents.add(b"<meta v1>" * max(1, sizes[0] // 9))
     M2 = contents.add(b"<meta v2/>" * max(1, sizes[1] // 10))
